@@ -32,6 +32,16 @@ func (g *Gen) allocTag(at allocType) int {
 	return v
 }
 
+// objKey: the allocation type of a map / channel object; the direction of a channel type is a property of the reference,
+// not of the object
+func objKey(t types.Type) allocType {
+	u := t.Underlying()
+	if c, ok := u.(*types.Chan); ok {
+		u = types.NewChan(types.SendRecv, c.Elem())
+	}
+	return allocType{key: "obj:" + u.String(), typ: u}
+}
+
 func objAlloc(t types.Type) allocType {
 	if a, ok := t.Underlying().(*types.Array); ok {
 		return allocType{key: "arr:" + a.Elem().String(), typ: a.Elem(), arr: true}
